@@ -38,8 +38,8 @@ func refDomain(host string) string {
 }
 
 type c17Cnt struct {
-	mu                 sync.Mutex
-	evals, nontrivial  int64
+	mu                sync.Mutex
+	evals, nontrivial int64
 }
 
 func c17CheckURL(c *Ctx, u string, srcHosts []string, srcDomains []string, cnt *c17Cnt) {
